@@ -17,7 +17,7 @@ pub struct C15;
 pub const CHECK: C15 = C15;
 pub fn plan(t: Tier) -> vcore::Plan {
     // tape shrinking is cheap to skip here: the structural shrinker (`simplify_at`) does the minimisation
-    let mut p = vcore::Plan::new(t.pick(4_000, 400_000), 1600);
+    let mut p = vcore::Plan::new(t.pick(30_000, 400_000), 1600);
     p.max_shrink_iters = 40;
     p
 }
@@ -630,6 +630,9 @@ impl Check for C15 {
                 let b = blame(case, &before);
                 let wrong_file = first.file.as_deref() != Some(exp_file.as_str());
                 let class = if wrong_file { "wrong-file" } else { "wrong-line" };
+                // a misplaced top-level statement is reported at whatever token follows it: which text shape "is to
+                // blame" then only says what happened to follow, it is one root cause
+                let b = if p.kind == "outer-stmt" && !wrong_file && first.line > exp_line { "reported-at-following-token".to_string() } else { b };
                 let signature = format!("C15/{}/{}/{}", class, p.kind, b);
                 let alt = if alt_lines.is_empty() { String::new() } else { format!(" (or line {} of the other definition)", alt_lines[0]) };
                 let detail = format!(
